@@ -58,7 +58,7 @@ func (p *Program) prelude(vc *VC, pkgs map[string]bool) {
 		if a.Lemma && vc.name == "lemma:"+a.Pkg+"."+a.Name {
 			continue
 		}
-		env := &Env{vc: vc, st: NewState(), vars: map[string]Val{}, pkg: p.typesPkgByName(a.Pkg)}
+		env := &Env{vc: vc, st: NewState(), vars: map[string]Val{}, pkg: p.typesPkgByName(a.Pkg), pkgName: a.Pkg}
 		t, err := env.EvalBool(a.E)
 		if err != nil {
 			// an axiom that cannot be expressed in this mode is skipped (recorded)
@@ -331,7 +331,7 @@ func (p *Program) GenLemma(a *AxiomDecl) *Unit {
 		}()
 		vc := NewVC(p, a.Mode, u.Key)
 		p.prelude(vc, map[string]bool{a.Pkg: true})
-		env := &Env{vc: vc, st: NewState(), vars: map[string]Val{}, pkg: p.typesPkgByName(a.Pkg)}
+		env := &Env{vc: vc, st: NewState(), vars: map[string]Val{}, pkg: p.typesPkgByName(a.Pkg), pkgName: a.Pkg}
 		t, e := env.EvalBool(a.E)
 		if e != nil {
 			err = e
@@ -391,7 +391,7 @@ func (fr *Frame) ghostAssign(st *State, env *Env, gu *GhostUpd) (err error) {
 		vc.writeKey(st, fieldKey(S, x.Name), t, ref, v)
 		return nil
 	case *EIdent:
-		if g := vc.prog.ghostGlobal(x.Name, env.pkg); g != nil {
+		if g := vc.prog.ghostGlobalIn(x.Name, env.specPkg()); g != nil {
 			t := env.resolveType(g.Type)
 			v := env.coerce(env.eval(gu.Value, t), t)
 			vc.writeGlobal(st, "G:ghost."+g.Pkg+"."+x.Name, t, v)
